@@ -169,6 +169,10 @@ def corpus():
         _arr(2, [_call(0, 'tA', [['see'], ['call', _call(1, 'tB', [['ret', 'static']])], ['see']], conditional=True)],
              default=True),
         _arr(2, [_call(0, 'tA', [['ret', 'static']])], default=True),
+        # witness of the listed finding C10-listeners-shared: two threads on the SAME application (another application's
+        # changes are never heard: see the listen_around cases above)
+        _arr(2, [_call(1, 'tA', [['listen_around', [['see']] * 6]]), _call(1, 'tC', [['req_set', 'HTTP_X_T', 'tCxt'], ['req_del']])],
+             start=0, switches=[[550, 1]]),
         # redirect() works for the default application ...
         _arr(2, [_call(0, 'tA', [['see'], ['redirect', '?to=tA']])], default=True),
         # ... and (finding C10-redirect-default-app) reads the default application's request from any other one
